@@ -201,6 +201,41 @@ func ruleSETALG(c *Ctx) {
 	}
 }
 
+// ruleSETEQ: IntSet.Equals distinguishes a set from its complement and sets of different size.
+func ruleSETEQ(c *Ctx) {
+	const rule = "DTX(setalg)"
+	fn := c.SSAFunc("util/container", "IntSet.Equals")
+	if fn == nil || len(fn.Params) != 2 {
+		c.Lost(rule, "util/container.IntSet.Equals", "method not found")
+		return
+	}
+	mk := func(name string, inv bool, ln int64) AV {
+		return avStruct{F: []AV{avBool{inv}, avSym{Name: name + ".Set", Len: avInt{ln, ln}}}}
+	}
+	for _, sc := range []struct {
+		ai, bi bool
+		al, bl int64
+		want   string
+	}{
+		{false, false, 0, 0, "true"}, {true, true, 0, 0, "true"}, {false, true, 0, 0, "false"}, {true, false, 0, 0, "false"},
+		{false, false, 1, 2, "false"}, {true, true, 2, 1, "false"}, {false, true, 2, 2, "false"}, {true, false, 3, 3, "false"},
+	} {
+		outs := aiEval(fn, []AV{mk("a", sc.ai, sc.al), mk("b", sc.bi, sc.bl)}, &aiConfig{})
+		key := fmt.Sprintf("util/container.IntSet.Equals[inv=%v/%v,len=%d/%d]", sc.ai, sc.bi, sc.al, sc.bl)
+		ok := len(outs) > 0
+		for _, o := range outs {
+			if o.Kind != "return" || len(o.Ret) != 1 || avStr2(o.Ret[0]) != sc.want {
+				ok = false
+			}
+		}
+		if ok {
+			c.Ok(rule, key, fn.Pos(), "returns %s on all %d paths", sc.want, len(outs))
+		} else {
+			c.Bad(rule, key, fn.Pos(), "Equals must return %s (a set never equals its complement or a set of another size); paths: %v", sc.want, outcomeSet(outs))
+		}
+	}
+}
+
 func showSS(s smallSet) string {
 	var e []string
 	for i := 0; i < 3; i++ {
